@@ -22,10 +22,13 @@ verify)
   rm -f /tmp/vm-$$.suite
   mkdir -p "$(dirname "$place")"; cp "$demo" "$place"
   pkg=./$(dirname "$place")
-  if go test -vet=off -count=1 -run Demo "$pkg" >/tmp/vm-$$.demo 2>&1; then echo "RESULT demo passes WITH the change (not a demonstration)"; rm -f /tmp/vm-$$.demo; exit 1; fi
+  RACE=""; grep -q -- "-race" "$D/meta.json" && RACE="-race"
+  TESTS=$(grep -o "^func Test[A-Za-z0-9_]*" "$demo" | sed 's/^func //' | paste -sd'|')
+  [ -z "$TESTS" ] && { echo "no test functions in the demonstration"; exit 2; }
+  if go test $RACE -vet=off -count=1 -run "^($TESTS)\$" "$pkg" >/tmp/vm-$$.demo 2>&1; then echo "RESULT demo passes WITH the change (not a demonstration)"; rm -f /tmp/vm-$$.demo; exit 1; fi
   grep -m3 -i "violat\|FAIL" /tmp/vm-$$.demo | cut -c1-300
   git checkout -- . ; 
-  if ! go test -vet=off -count=1 -run Demo "$pkg" >/tmp/vm-$$.demo 2>&1; then echo "RESULT demo fails WITHOUT the change"; tail -20 /tmp/vm-$$.demo; rm -f /tmp/vm-$$.demo; exit 1; fi
+  if ! go test $RACE -vet=off -count=1 -run "^($TESTS)\$" "$pkg" >/tmp/vm-$$.demo 2>&1; then echo "RESULT demo fails WITHOUT the change"; tail -20 /tmp/vm-$$.demo; rm -f /tmp/vm-$$.demo; exit 1; fi
   rm -f /tmp/vm-$$.demo
   echo "RESULT confirmed"
   ;;
